@@ -1,1 +1,159 @@
-fn main() { println!("hello"); }
+//! blsful verification harness: replays TLC-generated vectors on the real library (spec -> impl)
+//! and records traces of the real library for TLC to validate (impl -> spec).
+mod codec;
+mod conc;
+mod refeval;
+mod signet;
+
+use blsful::{Bls12381G1Impl, Bls12381G2Impl};
+use conc::*;
+use refeval::*;
+use serde_json::{json, Value};
+use std::collections::BTreeMap;
+use std::io::{BufRead, Write};
+use std::panic::{catch_unwind, AssertUnwindSafe};
+use std::sync::atomic::{AtomicUsize, Ordering};
+use std::sync::{Arc, Mutex};
+
+fn arg<'a>(args: &'a [String], name: &str) -> Option<&'a str> {
+    args.iter().position(|a| a == name).and_then(|i| args.get(i + 1)).map(|s| s.as_str())
+}
+
+fn run_vector(v: &Value, group: &str, conc: &Conc, tables: &Tables) -> signet::Outcome {
+    let spec = v.get("spec").and_then(|s| s.as_str()).unwrap_or("SigNet");
+    let f = || match (spec, group) {
+        ("SigNet", "G1") => signet::run::<Bls12381G1Impl, RefG1>(v, conc, tables),
+        ("SigNet", "G2") => signet::run::<Bls12381G2Impl, RefG2>(v, conc, tables),
+        (s, g) => signet::Outcome::fail(json!({}), format!("no interpreter for spec {s} group {g}")),
+    };
+    match catch_unwind(AssertUnwindSafe(f)) {
+        Ok(o) => o,
+        Err(p) => {
+            let msg = p.downcast_ref::<String>().cloned().or_else(|| p.downcast_ref::<&str>().map(|s| s.to_string())).unwrap_or_default();
+            let mut o = signet::Outcome::fail(json!({"abort": msg}), "call aborted (panic)");
+            o.notes.push("abort".into());
+            o
+        }
+    }
+}
+
+fn replay(args: &[String]) -> i32 {
+    let vec_path = arg(args, "--vectors").expect("--vectors");
+    let out_path = arg(args, "--out").expect("--out");
+    let tables = Tables::load(arg(args, "--tables").expect("--tables"));
+    let groups: Vec<String> = arg(args, "--groups").unwrap_or("G1,G2").split(',').map(|s| s.to_string()).collect();
+    let profiles: Vec<usize> = arg(args, "--profiles").unwrap_or("5").split(',').map(|s| s.parse().unwrap()).collect();
+    let seed: u64 = arg(args, "--seed").unwrap_or("0").parse().unwrap();
+    let threads: usize = arg(args, "--threads").unwrap_or("16").parse().unwrap();
+    let max_fail: usize = arg(args, "--max-fail").unwrap_or("50").parse().unwrap();
+
+    let f = std::fs::File::open(vec_path).expect("open vectors");
+    let vectors: Vec<Value> = std::io::BufReader::new(f)
+        .lines()
+        .map(|l| l.unwrap())
+        .filter(|l| !l.trim().is_empty())
+        .map(|l| serde_json::from_str(&l).expect("vector json"))
+        .collect();
+    // work items: (vector index, group, profile)
+    let mut items = vec![];
+    for (i, _) in vectors.iter().enumerate() {
+        for g in &groups {
+            for p in &profiles {
+                items.push((i, g.clone(), *p));
+            }
+        }
+    }
+    let vectors = Arc::new(vectors);
+    let items = Arc::new(items);
+    let next = Arc::new(AtomicUsize::new(0));
+    let fails: Arc<Mutex<Vec<Value>>> = Arc::new(Mutex::new(vec![]));
+    let stats: Arc<Mutex<BTreeMap<String, [u64; 4]>>> = Arc::new(Mutex::new(BTreeMap::new()));
+    let notes: Arc<Mutex<BTreeMap<String, u64>>> = Arc::new(Mutex::new(BTreeMap::new()));
+    // silence panic messages from catch_unwind'ed aborts
+    std::panic::set_hook(Box::new(|_| {}));
+    let mut hs = vec![];
+    for _ in 0..threads {
+        let (vectors, items, next, fails, stats, notes, tables) =
+            (vectors.clone(), items.clone(), next.clone(), fails.clone(), stats.clone(), notes.clone(), tables.clone());
+        hs.push(std::thread::Builder::new().stack_size(64 << 20).spawn(move || {
+            let mut local: BTreeMap<String, [u64; 4]> = BTreeMap::new();
+            let mut lnotes: BTreeMap<String, u64> = BTreeMap::new();
+            loop {
+                let ix = next.fetch_add(1, Ordering::Relaxed);
+                if ix >= items.len() {
+                    break;
+                }
+                let (vi, g, p) = &items[ix];
+                let v = &vectors[*vi];
+                let conc = Conc { atom_len: *p, seed };
+                let o = run_vector(v, g, &conc, &tables);
+                let act = v["act"].as_str().unwrap_or("?").to_string();
+                let e = local.entry(act).or_insert([0; 4]);
+                e[0] += 1;
+                e[2] += o.extra;
+                if v["expect"]["res"].as_str().map(|r| r == "Ok" || r == "Some" || r == "Valid").unwrap_or(false) {
+                    e[3] += 1;
+                }
+                for n in &o.notes {
+                    let key = if n.starts_with("error variant") { "error-variant-differs".to_string() } else { n.clone() };
+                    *lnotes.entry(key).or_insert(0) += 1;
+                }
+                if !o.ok {
+                    e[1] += 1;
+                    let mut f = fails.lock().unwrap();
+                    if f.len() < max_fail {
+                        f.push(json!({"vector": v, "group": g, "atom_len": p, "seed": seed, "observed": o.obs, "why": o.why}));
+                    }
+                }
+            }
+            let mut s = stats.lock().unwrap();
+            for (k, v) in local {
+                let e = s.entry(k).or_insert([0; 4]);
+                for i in 0..4 {
+                    e[i] += v[i];
+                }
+            }
+            let mut nn = notes.lock().unwrap();
+            for (k, v) in lnotes {
+                *nn.entry(k).or_insert(0) += v;
+            }
+        }).unwrap());
+    }
+    for h in hs {
+        h.join().unwrap();
+    }
+    let stats = stats.lock().unwrap();
+    let fails = fails.lock().unwrap();
+    let total: u64 = stats.values().map(|v| v[0]).sum();
+    let nfail: u64 = stats.values().map(|v| v[1]).sum();
+    let extra: u64 = stats.values().map(|v| v[2]).sum();
+    let per_act: BTreeMap<String, Value> = stats
+        .iter()
+        .map(|(k, v)| (k.clone(), json!({"executed": v[0], "failed": v[1], "derived_executions": v[2], "expect_accept": v[3]})))
+        .collect();
+    let summary = json!({
+        "vectors": vectors.len(), "executions": total, "derived_executions": extra, "failed": nfail,
+        "groups": groups, "profiles": profiles, "seed": seed, "per_act": per_act,
+        "notes": *notes.lock().unwrap(), "failures": *fails,
+    });
+    let mut out = std::fs::File::create(out_path).expect("create out");
+    writeln!(out, "{}", serde_json::to_string_pretty(&summary).unwrap()).unwrap();
+    println!("replay: {} vectors, {} executions (+{} derived), {} failed", vectors.len(), total, extra, nfail);
+    if nfail > 0 {
+        1
+    } else {
+        0
+    }
+}
+
+fn main() {
+    let args: Vec<String> = std::env::args().collect();
+    let code = match args.get(1).map(|s| s.as_str()) {
+        Some("replay") => replay(&args[2..]),
+        _ => {
+            eprintln!("usage: bh replay --vectors F --tables T --out O [--groups G1,G2] [--profiles 5,129] [--seed N]");
+            2
+        }
+    };
+    std::process::exit(code);
+}
